@@ -104,7 +104,7 @@ def size_ok(o):
 
 OPS = ["new", "new", "svd", "add", "sub", "mul", "kron", "matmul", "transpose", "scalar", "clone", "to_ttm", "round", "sum", "getitem",
        "permute", "reshape", "cat", "pad", "diag", "mprod", "set_core", "reduce_dims", "dmrg", "hadamard", "amen_mm", "amen_mv", "solve", "divide",
-       "interp", "qtt", "dot", "norm", "factory", "saveload", "set_core_neg", "ctor_from_N", "ctor_from_N", "scribble", "scribble", "ctor_bad"]
+       "interp", "qtt", "dot", "norm", "factory", "saveload", "set_core_neg", "ctor_from_N", "ctor_from_N", "scribble", "scribble", "ctor_bad", "set_core_badrank", "iop"]
 
 def do_step(w, op):
     """performs one call; returns the log entry (name) or None when the op is not applicable"""
@@ -285,6 +285,31 @@ def do_step(w, op):
         except Exception:
             return "set_core_neg(%d,%d) [rejected]" % (i, k), None
         return "set_core_neg(%d,%d) [accepted]" % (i, k), i
+    if op == "set_core_badrank":
+        # a replacement core with exactly ONE rank that does not fit its neighbours (or a boundary rank that is not 1): rejected, or - if accepted - the object must still be well formed
+        i = w.pick()
+        if i is None: return None
+        x = P[i]; d = len(x.N); k = rng.randrange(d)
+        R = [int(r) for r in x.R]; side = rng.choice([0, 1])
+        r0_, r1_ = R[k] + (1 if side == 0 else 0), R[k + 1] + (1 if side == 1 else 0)
+        shp = [r0_] + list(x.cores[k].shape[1:-1]) + [r1_]
+        try:
+            x.set_core(k, torch.tensor(ttgen.rand_core(rng, tuple(shp)), dtype=x.cores[0].dtype))
+        except Exception:
+            return "set_core_badrank(%d,%d) [rejected]" % (i, k), None
+        return "set_core_badrank(%d,%d,side=%d) [accepted]" % (i, k, side), i
+    if op == "iop":
+        # augmented assignment with a scalar (x *= a, x /= a, x += a, x -= a): python rebinds the name to a NEW object unless the class defines the in-place
+        # method; either way every OTHER object (views of x taken before) keeps its value
+        i = w.pick(lambda o: size_ok(o))
+        if i is None: return None
+        y = P[i]; a_ = rng.choice([2.0, -0.5, 3]); sym = rng.choice(["*=", "/=", "*=", "+=", "-="])
+        if sym == "*=": y *= a_
+        elif sym == "/=": y /= a_
+        elif sym == "+=": y += a_
+        else: y -= a_
+        if y is not P[i]: w.add(y, "KNew %s" % shlist_coq(y))          # the name was rebound to a new object: object i itself is unchanged
+        return "y = obj%d; y %s %r" % (i, sym, a_), None               # (an in-place method would leave y is obj_i: the frame check then shows what moved)
     if op == "ctor_from_N":
         # a new object built from the dense value and the N list of an existing one: the two must not share their mode-size lists
         i = w.pick(lambda o: not o.is_ttm and size_ok(o) and int(np.prod(o.N)) <= 4096)
